@@ -43,3 +43,27 @@ package keeper
 //@ modifies auth(ctx)
 //@ callsite CallEVMWithData [from-module] from == types.ModuleAddress && *contract == endpointcontract.EndpointContractAddress
 //@ ensures [all-or-nothing] err != nil ==> unchanged(ctx)
+
+// ---- conversions: frame only here (functional contracts: C11) -------------------------------------
+// verif:import sdk github.com/cosmos/cosmos-sdk/types
+
+// verif:func (Keeper).ConvertCoin
+//@ let ctx = sdk.UnwrapSDKContext(goCtx)
+//@ modifies world(ctx)
+
+// ---- ICS-20 receive hook (C16) --------------------------------------------------------------------
+// verif:import transfertypes github.com/cosmos/ibc-go/v3/modules/apps/transfer/types
+// verif:import common github.com/ethereum/go-ethereum/common
+
+// verif:func (Keeper).OnRecvPacket
+//@ modifies world(ctx)
+//@ ensures [returns-ack]            result == ack
+//@ ensures [atomic]                 ncalls("ConvertCoin") == 1 && !callsok("ConvertCoin") ==> unchanged(ctx)
+//@ ensures [no-conversion-no-change] ncalls("ConvertCoin") == 0 ==> unchanged(ctx)
+//@ ensures [at-most-one-conversion] ncalls("ConvertCoin") <= 1
+//@ ensures [complete]               ncalls("ConvertCoin") == 1 && callsok("ConvertCoin") ==>
+//@        bank(ctx) == callpost("ConvertCoin", bank) && evm(ctx) == callpost("ConvertCoin", evm) && aggregate(ctx) == callpost("ConvertCoin", aggregate) && supply(ctx) == callpost("ConvertCoin", supply) && auth(ctx) == callpost("ConvertCoin", auth)
+//@ callsite ConvertCoin [in-cache-context] goCtx == sdk.WrapSDKContext(cctx)
+//@ callsite ConvertCoin [message] msg.Coin.Denom == denom && msg.Coin.Amount == transferAmount && msg.Sender == receiver.String() && msg.Receiver == common.BytesToAddress(receiver.Bytes()).Hex()
+//@ callsite ConvertCoin [denom-from-dest-port] denom == first(types.IBCDenom(packet.DestinationPort, packet.DestinationChannel, data.Denom))
+//@ callsite ConvertCoin [amount-from-packet]   transferAmount == first(sdk.NewIntFromString(data.Amount)) && receiver == first(sdk.AccAddressFromBech32(data.Receiver))
